@@ -63,6 +63,13 @@ def _init_worker():
     import warnings
     warnings.filterwarnings("ignore")
     try:
+        # no thread pools: the parent forks worker pools more than once (cases, then the search
+        # phase), and a fork taken while dask's threads hold locks dead-locks the children
+        import dask
+        dask.config.set(scheduler="synchronous")
+    except Exception:
+        pass
+    try:
         from astropy import log
         log.setLevel("ERROR")
     except Exception:
@@ -260,11 +267,18 @@ class Runner:
             # correspondence or proof broken without a failing input yet: search for one
             n = int(os.environ.get("VERIF_SEARCH_FACTOR", "10"))
             srng = random.Random(self.seed + 7919)
+            import itertools
             extra = []
+            cap = int(os.environ.get("VERIF_SEARCH_MAX_CASES", "40000"))
+            per_batch = max(len(cases), 200)
             for k in range(n):
-                extra += list(mod.generate(random.Random(srng.random()), "thorough" if k == 0 else self.tier))
-                if time.time() - self.t0 > float(os.environ.get("VERIF_SEARCH_BUDGET_S", "900")):
+                # fresh seeds of the generator of this tier; every batch is capped so that the search
+                # stays a matter of minutes whatever the size of the thorough tier
+                gen = mod.generate(random.Random(srng.random()), "thorough" if k == 0 else self.tier)
+                extra += list(itertools.islice(gen, per_batch if k else 4 * per_batch))
+                if len(extra) >= cap or time.time() - self.t0 > float(os.environ.get("VERIF_SEARCH_BUDGET_S", "900")):
                     break
+            extra = extra[:cap]
             sres = self.run_cases(extra)
             searched = len(sres)
             for r in sres:
